@@ -1053,18 +1053,19 @@ def enumerate_tasks(tier, seed):
                 'q/w commits (2^m per tuple)')
         return tasks, desc, True
     rng = random.Random(seed)
-    budget = 24000            # status patterns of 4-PR tuples per shape
+    budget = 8000             # status patterns of 4-PR tuples per shape
     n4 = 0
     for sh in shapes:
         dests = destinations(sh)
         for k in range(0, 4):
             for prs in itertools.product(dests, repeat=k):
-                # 4-valued one-by-one: m <= 4 everywhere, m <= 6 for the
-                # 2-development-version cascades (where the smallest
-                # counterexamples live)
+                # 4-valued one-by-one: m <= 4 everywhere, m <= 6 on the
+                # cascade of the smallest counterexamples
+                # (development/4.3, development/5.1, stabilization/5.1.4)
+                small = sh['devs'] == ['4.3', '5.1'] and sh['stabs'] == ['5.1']
                 tasks.append((sh, prs, {
-                    'qwf': True,
-                    'direct4': 6 if len(sh['devs']) == 2 else 4}))
+                    'qwf': k <= 2 or len(sh['devs']) <= 2,
+                    'direct4': 6 if small else 4}))
         four = list(itertools.product(dests, repeat=4))
         rng.shuffle(four)
         left = budget
@@ -1130,7 +1131,7 @@ def run(tier='quick', seed=0, jobs=16, deadline_s=None):
     """Bounded check of C05 (+ QWF) - see module docstring / 'rule'."""
     t0 = time.time()
     if deadline_s is None:
-        deadline_s = 80 if tier == 'quick' else 24 * 60
+        deadline_s = 85 if tier == 'quick' else 24 * 60
     tasks, scope_desc, full = enumerate_tasks(tier, seed)
     # heaviest first, for load balancing
     order = sorted(range(len(tasks)),
@@ -1231,7 +1232,9 @@ def run(tier='quick', seed=0, jobs=16, deadline_s=None):
         "(recorded by an instrumented str: comparisons seen = %s); "
         "all 4^m assignments are additionally enumerated one by one for the "
         "tuples of <= 3 PRs with m <= 6 (thorough) / m <= 4, and m <= 6 on "
-        "the 2-development-version cascades (quick). "
+        "the cascade 4.3, 5.1 + stabilization/5.1.4 (quick). QWF runs on "
+        "every tuple (thorough) / on tuples of <= 2 PRs, and of 3 PRs on "
+        "cascades of <= 2 development versions (quick). "
         "force_merge=True: one status-blind run per tuple (the stub raises "
         "on any status query; none happened), which covers every status "
         "assignment of the tuple; it counts as ONE case. build()+validate() "
